@@ -62,6 +62,12 @@ class ConclusionSelector(LogicalBinaryOperator, ABC):
             self._conclusion_.update(conclusions)
             seen.add(required_output)
 
+    def _forget_evaluation_memory_(self) -> None:
+        """
+        The coverage memory belongs to one top-level evaluation of the query.
+        """
+        self.concluded_before.clear()
+
     @property
     def _plot_color_(self) -> ColorLegend:
         return ColorLegend("ConclusionSelector", "#eded18")
